@@ -59,8 +59,12 @@ Definition window (N : Z) (SR : Q) (m : mspec) : Z * Z :=
 
 Definition in_window (k : Z) (w : Z * Z) : bool := (fst w <=? k) && (k <? snd w).
 
+(* the sample indices start, start+1, ... (n of them), counted in Z so that evaluation is linear in n *)
+Fixpoint zrange (n : nat) (start : Z) : list Z :=
+  match n with O => [] | S m => start :: zrange m (start + 1) end.
+
 Definition paint (N : Z) (ws : list (Z * Z)) : list bool :=
-  map (fun k => existsb (in_window (Z.of_nat k)) ws) (List.seq 0 (Z.to_nat N)).
+  map (fun k => existsb (in_window k) ws) (zrange (Z.to_nat N) 0).
 
 Definition forge_bp_with (b : bp) (SR : Q) (ds0 : list val) : result forged :=
   do ds <- resolve_waits_aux (funs b) (args b) ds0 (Some 0%Q);
